@@ -121,7 +121,7 @@ def perturb_lines(lines, rnd):
                     except ValueError:
                         fail = 1
         if op in API_OPS and rnd.random() < 0.34:
-            k = rnd.randrange(5)
+            k = rnd.randrange(6)
             # (configuration is the library's, not the calling thread's: half of these calls are made on a thread of
             # their own; only the three low bits of the enabling argument count, whatever else is set)
             th = " other" if rnd.random() < 0.5 else ""
@@ -142,6 +142,13 @@ def perturb_lines(lines, rnd):
                     out.append("env " + " ".join(x for x in (last_rand, last_time) if x))
             elif k == 4 and fail == 0:
                 out += ["env fail=%d" % rnd.choice([1, 1, 2]), line, "env fail=0"]
+                continue
+            elif k == 5 and op != "create":
+                # the clock means nothing outside creation: any reading, earlier or later than any seed's birthday
+                t = rnd.choice([0, EPOCH - 1, EPOCH, EPOCH + rnd.randrange(1024) * STEP, 2 ** 32 - 1, 2 ** 64 - 1, EPOCH + 3 * STEP])
+                out += ["env time=%d libctime=%d" % (t, t), line]
+                if last_time:
+                    out.append("env " + last_time)
                 continue
         out.append(line)
     return out
